@@ -246,6 +246,18 @@ def _optional_rules(ctx, prog, c):
         ctx.check(ok, "R18.4", f, "path without write to data_",
                   "copy assignment leaves the target untouched on the path B%s (source empty): assigning an empty optional does not empty the target"
                   % "->B".join(str(b) for b in (path or [])), f)
+    # every other assignment operator (move assignment, assignment from a value) overwrites the storage on every path
+    # except the self-assignment path: "assigning X" makes the target hold X's state, whatever it held before
+    other_asg = [f for f in methods if f.op == "=" and not f.flags.get("copy_assign") and f.is_pattern]
+    for f in other_asg:
+        pn0 = f.params[0]["name"] if f.params else None
+        selftest = lambda b, to, lab, f=f: not (f.term(b).get("cond") is not None and "this" in fmt(f.term(b)["cond"]) and "&" in fmt(f.term(b)["cond"])
+                                            and ((fmt(f.term(b)["cond"]).find("!=") >= 0 and lab == "false") or (fmt(f.term(b)["cond"]).find("==") >= 0 and lab == "true")))
+        ok, path = cfg.must_happen_before_exit(f, lambda e: any(True for w in _writes_in_elem(e, dq)), edge_ok=selftest)
+        what = "move-assign" if f.flags.get("move_assign") else "assign(%s)" % (f.params[0].get("type") if f.params else "")
+        ctx.check(ok, "R18.4", f, "assignment-always-overwrites:" + what,
+                  "%s leaves the target's old value in place on the path B%s: after `a = b` the target does not hold b's state (an empty source does not empty the target)"
+                  % (what, "->B".join(str(b) for b in (path or []))), f)
     for f in deref:
         # every dereference of data_ dominated by a non-null test; other edge raises
         n_deref = 0
